@@ -28,6 +28,8 @@ def parseIp (s : String) : Option Nat :=
 inductive Op where
   | dg (ip port : Nat) (payload : Bytes)
   | adv (ns : Nat)
+  /-- a datagram from a non-IPv4 source (`To4() = nil`): it can own no server -/
+  | dg6 (port : Nat) (payload : Bytes)
   /-- a use case of another component run to completion in between (a probe outcome, a cleanup, …): `ucops.Client` spec -/
   | uc (spec : USpec)
 
@@ -47,6 +49,10 @@ def parseOp : List String → Option Op
   | ["adv", ns] => do
     let ns ← nat? ns
     pure (.adv ns)
+  | ["dg6", _, port, hex] => do
+    let port ← nat? port
+    let b ← hex? hex
+    pure (.dg6 port b)
   | ["uc", spec] => (parseSpec spec).map .uc
   | _ => none
 
@@ -101,6 +107,20 @@ def runOps : List Op → List String → AbsState → Int → String → String 
     | some recs => some ({ dg := ⟨ip, port, payload, now⟩, before := st, after := st', outcome := oc, implOutcome := o, ucDiff := pend,
                            implBefore := implPrev, implAfter := implAfter, modelBefore := modelPrev, modelAfter := modelAfter } :: recs)
   | .dg _ _ _ :: _, _, _, _, _, _, _ => none
+  | .dg6 port payload :: ops, o :: d :: out, st, now, implPrev, modelPrev, pend =>
+    -- challenge and availability requests do not look at the source; everything else from a non-IPv4 source is an
+    -- error without effect (`addr.New` rejects it, the keepalive owner check compares against `To4() = nil`)
+    let noIPv4 : Nat := 4294967296
+    let (st', oc) := match payload with
+      | t :: _ => if t.toNat = Facts.reporterMsgChallenge ∨ t.toNat = Facts.reporterMsgAvailable then dispatch cfg st 0 port payload now else (st, Outcome.err)
+      | [] => (st, Outcome.panic)
+    let implAfter := if d = "=" then implPrev else d
+    let modelAfter := joinDump (dumpState st')
+    match runOps ops out st' now implAfter modelAfter none with
+    | none => none
+    | some recs => some ({ dg := ⟨noIPv4, port, payload, now⟩, before := st, after := st', outcome := oc, implOutcome := o, ucDiff := pend,
+                           implBefore := implPrev, implAfter := implAfter, modelBefore := modelPrev, modelAfter := modelAfter } :: recs)
+  | .dg6 _ _ :: _, _, _, _, _, _, _ => none
 
 def records (args out : List String) : Option (List StepRec) :=
   match args with
